@@ -174,6 +174,15 @@ Auth::Basic::Config::decodeCleartext(const char *httpAuthHeader, const HttpReque
     if (base64_decode_update(&ctx, &dstLen, reinterpret_cast<uint8_t*>(cleartext), srcLen, eek) && base64_decode_final(&ctx)) {
         cleartext[dstLen] = '\0';
 
+        // The code below treats cleartext as a c-string. Do not silently
+        // truncate credentials at an embedded NUL; refuse them like CR/LF.
+        if (memchr(cleartext, '\0', dstLen)) {
+            debugs(29, DBG_IMPORTANT, "WARNING: Bad characters in authorization header '" << httpAuthHeader << "'");
+            safe_free(cleartext);
+            safe_free(eek);
+            return nullptr;
+        }
+
         if (utf8 && !isValidUtf8String(cleartext, cleartext + dstLen)) {
             auto str = isCP1251EncodingAllowed(request) ?
                        Cp1251ToUtf8(cleartext) : Latin1ToUtf8(cleartext);
